@@ -429,6 +429,7 @@ pub fn run(tier: Tier) -> i32 {
         }
     }
     rep.set("rule", json!(format!("All strings of <= {k} atoms from {} hostile atoms (& < > \" ' -- - ]]> <![CDATA[ e-acute emoji tab newline &amp; x space --> </svg>) x {} sinks (every route by which a value reaches the output: pass-through attributes on shapes/groups/root/unknown elements/containers, id, class, style, text-style, text attribute, element/tspan/style/title content, CDATA content, tail text, _ and __ comments, variables flowing into attributes/text/comments/classes, group locals, reuse parameters and attributes, defaults, loop/for/if bodies, expression strings, href/transform/points/path/clip-path, author-supplied copies of synthesised attributes, connectors, surround, source comments and PIs, config element and API background/font-family/svg-style) x {} configurations (default, debug, metadata, no auto styles, local styles, debug+metadata+svg-style, dark). The value is spelled correctly escaped for its source context, so every input is itself well-formed (checked). Oracle on every Ok: independent strict XML reader accepts the output (document mode + <svg> root with SVG namespace and version when the input root is <svg>, content mode for fragments). Non-trivial = at least one configuration returned Ok and the string is non-empty.", ATOMS.len(), SINKS.len(), cfgs.len())));
+    rep.set("also_later", json!("Rounds 3-5 added a whole-documents leg: 9 well-formed documents around the DOCTYPE (markup characters in comments, entity values, system literals) and around elements which cannot be read (also inside <specs>) x 7 configurations: an Ok result is a single-rooted <svg> document with namespace and version, never an empty success."));
     let st = run_space(cases.len(), |i| check(&cases[i], &cfgs));
     let mid = &cases[cases.len() / 2 + 7];
     if let Some((d, _)) = build(mid, &cfgs[0].1) {
